@@ -493,6 +493,9 @@ def check(ctx):
     from c07 import check_serde_filter, check_builtin_table
     check_serde_filter(S, P, r4)
     check_builtin_table(S, r4)
+    # a type text the harvester takes apart wrongly yields no name: the type is referenced but never declared (shared with C07-D4 / C09-D4)
+    from c07 import check_type_text_splitting
+    check_type_text_splitting(P, r4)
     for v in r4.violations:
         v.rule = r4.id
     r4.require_floor(2, "insertions into the declared set")
